@@ -40,9 +40,12 @@ structure St where
   /-- `NonThreadedExecutor.rolledback` (oldest first): the node and the identity of the
   exception that was propagating when it was rolled back -/
   rolledback : List (Node × Nat) := []
-  /-- identity of the most recently raised exception object / number of exceptions so far -/
+  /-- identity of the exception that is propagating - or, when none is, of the one the running
+  formula received last from a callee (`sys.exc_info()[1]` as `CallStack.rollback` reads it) -/
   curExc : Nat := 0
-  /-- ghost: the call stack at the moment the most recent exception object was created -/
+  /-- number of exception objects created so far (the next one gets identity `excCount + 1`) -/
+  excCount : Nat := 0
+  /-- ghost: the call stack at the moment the exception object `curExc` was created -/
   excStack : List Node := []
   /-- `executor.excinfo` / `executor.errorstack` as `get_error()` / `get_traceback()` see them -/
   lastErr : Option Err := none
@@ -169,13 +172,26 @@ def St.noteRead (s : St) (byAttr : Bool) (r : RefId) : St :=
   else s
 
 /-- a new exception object is raised -/
-def St.newExc (s : St) : St := { s with curExc := s.curExc + 1, excStack := s.stack }
+def St.newExc (s : St) : St :=
+  { s with excCount := s.excCount + 1, curExc := s.excCount + 1, excStack := s.stack }
+
+/-- A call that returns normally leaves the caller's exception as it was: exceptions that were
+raised and handled inside the callee are gone with its frames, so if the caller is in an
+`except … : … raise` or a `finally:` block, the exception that propagates after the call is the
+one it was handling before it - not the last one the callee saw. -/
+def keepExc (s : St) (p : Res × St) : Res × St :=
+  match p.1 with
+  | .ok _ => (p.1, { p.2 with curExc := s.curExc, excStack := s.excStack })
+  | .err _ => p
 
 /-! ### the evaluator -/
 
 def runBody (env : Env) (ev : Node → St → Res × St) : Prog → St → Res × St
   | .ret v, s => (.ok v, s)
   | .raise e, s => (.err e, s.newExc)
+  -- the exception `s.curExc` propagates (again): the one just received from a failed call, or -
+  -- at the end of an `except … : … raise` / `finally:` block whose calls all returned - the one
+  -- that was being handled
   | .reraise e, s => (.err e, s)
   | .read a r k, s =>
     -- `get_attr` fails (`KeyError` → `AttributeError`) before anything is recorded when no
@@ -194,8 +210,8 @@ def evalNode (env : Env) (ef : Node → St → Res × St) (n : Node) (s : St) : 
     if env.cached n.1 then
       match lookup s.data n with
       | some v => (.ok v, s.hitEdge n)
-      | none => ef n s
-    else ef n s
+      | none => keepExc s (ef n s)
+    else keepExc s (ef n s)
   else (.err errDead, s.newExc)
 
 /-- `_eval_formula` with `d` = how many more frames `CallStack.append` accepts -/
@@ -358,6 +374,35 @@ def St.setValue (env : Env) (s : St) (n : Node) (v : Val) : St × Option EditErr
     let s2 := { s1 with data := insert s1.data n v }
     let s3 := s2.addNode (.elem n)
     ({ s3 with inputs := if s3.inputs.contains n then s3.inputs else s3.inputs ++ [n] }, none)
+
+/-! ### administrative calls
+
+`mx.start_stacktrace` / `stop_stacktrace` (the call stack object is replaced by one of the other
+class **with the same `maxdepth`**), `get_stacktrace`, `clear_stacktrace`, `trace_stack`,
+`get_recursion`, `get_error`, `get_traceback`, and `set_recursion` to the value the limit already
+has: none of them touches the execution state, the cache, the graphs or the recursion limit.
+(`set_recursion(k)` proper changes `Env.maxdepth` and nothing else - in particular it clears
+nothing.) -/
+
+inductive Admin
+  | startTrace | stopTrace | getTrace | clearTrace | traceStack
+  | getRecursion | getError | getTraceback | setRecursionSame
+deriving DecidableEq, Repr
+
+def St.admin (s : St) (_ : Admin) : St := s
+
+/-- the only state of the stack-trace facility that is visible through results: whether a trace
+session is active (`get_stacktrace` / `clear_stacktrace` raise `RuntimeError` when it is not) -/
+def Admin.tracing (active : Bool) : Admin → Bool
+  | .startTrace => true
+  | .stopTrace => false
+  | .traceStack => false
+  | _ => active
+
+def Admin.refused (active : Bool) : Admin → Bool
+  | .getTrace => !active
+  | .clearTrace => !active
+  | _ => false
 
 /-- leaves of the descendants of `n` (`TraceGraph.get_startnodes_from`) -/
 def St.startNodesFrom (s : St) (n : Node) : List Node :=
